@@ -58,6 +58,13 @@ Proof. exact topo_exact. Qed.
 
 (* 5. ... and the code follows the discipline that theorem needs: visited is marked before the
       recursion into the dependents. *)
+(* sending to the reloader never blocks (both channels are unbounded), so the reloader cannot wait
+   on a queue only it can drain, and callers and watchers cannot be held up by a full queue *)
+Theorem C08_code_senders_never_block :
+  creates_unbounded "cache_msg_tx" "cache_msg_rx" HotReloader_start = true /\
+  creates_unbounded "events_tx" "events_rx" HotReloader_make = true.
+Proof. exact reloader_channels_never_block_senders. Qed.
+
 Theorem C08_code_marks_before_recursing : visit_wf DepsGraph_visit = true.
 Proof. exact visit_marks_before_recursing. Qed.
 
